@@ -1,6 +1,6 @@
 SPECIFICATION Spec
 CONSTANTS
-  MaxDepth = 4
+  MaxDepth = 3
   Mint = FALSE
 INVARIANTS TypeOK NoMinting DeadStaysDead
 CHECK_DEADLOCK FALSE
